@@ -81,7 +81,7 @@ const (
 // ---------------------------------------------------------------------------------------
 
 var (
-	c16Accounts = []string{"ex:food", "ex:fuel", "as:cash", "as:bank", "Ex:rent"}
+	c16Accounts = []string{"ex:food", "ex:fuel", "as:cash", "as:bank", "Ex:rent"} // plus the declared-only "éx:tra"
 	c16Payees   = []string{"Shop", "shell", "Cafe"}
 	c16Comms    = []string{"USD", "UAH", "EUR"}
 	c16Tags     = []string{"trip", "type", "car"}
@@ -145,8 +145,9 @@ func (w *c16World) tx(payee, tag, a1, a2, comm int, date, qty string) string {
 func c16BuildWorld(profile int) *c16World {
 	w := &c16World{}
 	w.acc.add("as:bank", 0)
+	w.acc.add("éx:tra", 0) // declared only; its first letter takes two bytes
 	w.com.add("EUR", 0)
-	w.head = "account as:bank\ncommodity EUR\n\n" + w.tx(0, 0, 0, 2, 0, "2024-01-01", "1")
+	w.head = "account as:bank\naccount éx:tra\ncommodity EUR\n\n" + w.tx(0, 0, 0, 2, 0, "2024-01-01", "1")
 	w.main = "include a.journal\n" + w.head
 	day := 1
 	for _, t := range c16Profiles[profile] {
@@ -208,7 +209,7 @@ type c16Kind struct {
 }
 
 var c16Kinds = [c16NKinds]c16Kind{
-	c16KPosting:      {ContextAccount, c16AlphaAccount, []string{"    ", "\t", "  ", "        "}, 3, []string{"", "ex:", "ex:fo"}, []string{"", "od", "  1 USD"}, 2, true},
+	c16KPosting:      {ContextAccount, c16AlphaAccount, []string{"    ", "\t", "  ", "        "}, 3, []string{"", "ex:", "é", "ex:fo"}, []string{"", "od", "  1 USD"}, 2, true},
 	c16KVirtual:      {ContextAccount, c16AlphaAccount, []string{"    (", "    ["}, 1, []string{"", "ex:"}, []string{"", ")"}, 1, true},
 	c16KStatus:       {ContextAccount, c16AlphaAccount, []string{"    * ", "    ! "}, 1, []string{"", "ex:"}, []string{""}, 1, true},
 	c16KHeader:       {ContextPayee, c16AlphaPayee, []string{"2024-01-20 ", "2024/1/20 "}, 1, []string{"", "Sh:", "Sh"}, []string{"", "op"}, 1, false},
@@ -234,13 +235,12 @@ type c16Frag struct {
 
 func c16MakeFrag(cp, sym string) c16Frag {
 	f := c16Frag{text: cp + sym}
-	for i := 0; i < len(cp); i++ {
-		c := cp[i]
-		f.exact = append(f.exact, rune(c))
+	for _, c := range cp { // the concrete beginning may hold a non-ASCII letter (lower case)
+		f.exact = append(f.exact, c)
 		if c >= 'A' && c <= 'Z' {
 			c += 'a' - 'A'
 		}
-		f.fold = append(f.fold, rune(c))
+		f.fold = append(f.fold, c)
 	}
 	for i := 0; i < len(sym); i++ {
 		f.exact = append(f.exact, rune(sym[i]))
@@ -252,12 +252,11 @@ func c16MakeFrag(cp, sym string) c16Frag {
 
 func c16FoldName(s string) []rune {
 	out := make([]rune, 0, len(s))
-	for i := 0; i < len(s); i++ {
-		c := s[i]
+	for _, c := range s { // names hold ASCII and lower-case non-ASCII letters only
 		if c >= 'A' && c <= 'Z' {
 			c += 'a' - 'A'
 		}
-		out = append(out, rune(c))
+		out = append(out, c)
 	}
 	return out
 }
@@ -329,8 +328,8 @@ func verifC16Pipeline(cfg c16Cfg) {
 	}
 	pre := kd.pres[zzverif.Choice("pre", npre)]
 	ncp := len(kd.cps)
-	if !cfg.allLines && ncp > 2 {
-		ncp = 2
+	if !cfg.allLines && ncp > 3 {
+		ncp = 3
 	}
 	cp := kd.cps[zzverif.Choice("typed", ncp)]
 	nf := cfg.minSym + zzverif.Choice("frag.len", cfg.maxSym-cfg.minSym+1)
@@ -364,7 +363,7 @@ func verifC16Pipeline(cfg c16Cfg) {
 	frag := c16MakeFrag(cp, zzverif.Text("frag", kd.alpha, nf))
 	line := pre + frag.text + post
 	startCol := c16U16(pre) // the typed fragment is ASCII; the text before it need not be
-	col := startCol + len(frag.text)
+	col := startCol + c16U16(frag.text)
 
 	// --- workspace, server, buffer ---
 	w := c16BuildWorld(profile)
